@@ -47,6 +47,14 @@ def stmt_of(node):
     return n
 
 
+def handler_types(h):
+    if h.type is None:
+        return ['<bare>']
+    if isinstance(h.type, ast.Tuple):
+        return [unparse(e).split('.')[-1] for e in h.type.elts]
+    return [unparse(h.type).split('.')[-1]]
+
+
 class FuncInfo:
     def __init__(self, rel, cls, node):
         self.rel = rel
@@ -167,7 +175,7 @@ class SolverRoles:
             if isinstance(n, ast.ClassDef):
                 for m in n.body:
                     if isinstance(m, ast.FunctionDef):
-                        types = [unparse(h.type).split('.')[-1] for t in ast.walk(m) if isinstance(t, ast.Try) for h in t.handlers if h.type is not None]
+                        types = [x for t in ast.walk(m) if isinstance(t, ast.Try) for h in t.handlers for x in handler_types(h)]
                         if 'UnmetDependency' in types and 'MissingInput' in types:
                             cand.append((n, m))
         if len(cand) != 1:
@@ -179,7 +187,10 @@ class SolverRoles:
         self.solve = core.func(rel, self.name, 'solve')
         self.init = core.func(rel, self.name, '__init__')
         self.try_ = next(t for t in ast.walk(attempt) if isinstance(t, ast.Try))
-        self.handlers = {unparse(h.type).split('.')[-1]: h for h in self.try_.handlers if h.type is not None}
+        self.handlers = {}
+        for h in self.try_.handlers:
+            for x in handler_types(h):
+                self.handlers.setdefault(x, h)
         for x in ('UnmetDependency', 'MissingInput', 'MissingInputSpecification', 'FieldNotImplemented'):
             if x not in self.handlers:
                 raise AnalysisError(f'{rel}: {attempt.name} has no handler for {x} (anchor vanished)')
